@@ -355,7 +355,7 @@ __CPROVER_ensures(IMPLIES(RPW_RC_NEXT(RPW_RC_C(driver)) == 0u,
     && IMPLIES(g_k < RPW_RC_MIN(n, RPW_RC_REST0(RPW_RC_C(driver))),
                RPW_U8(data)[g_k] == RPW_RC_C(driver)->chunk[0].data[RPW_RC_O0(RPW_RC_C(driver)) + g_k])))
 /* otherwise the second chunk's */
-__CPROVER_ensures(IMPLIES(RPW_RC_NEXT(RPW_RC_C(driver)) == 1u,
+__CPROVER_ensures(IMPLIES(RPW_RC_C(driver)->chunks == 2u && RPW_RC_NEXT(RPW_RC_C(driver)) == 1u,
     __CPROVER_return_value >= 0
     && (size_t)__CPROVER_return_value == RPW_RC_MIN(n, RPW_RC_REST1(RPW_RC_C(driver)))
     && RPW_RC_C(driver)->active == 1u
